@@ -1,5 +1,9 @@
 """C15 JSON documents convert to CEL values and back without loss."""
-import z3
+import os
+
+os.environ["VERIF_TIME_SHADOW"] = "1"  # timestamp/duration encodings run on the term-level datetime model (vf/sym/times.py)
+
+import z3  # noqa: E402
 
 from .. import explore
 from ..explore import Harness, Ob
@@ -20,7 +24,8 @@ BOUNDS = {
     "thorough": {"documents": "the same shapes plus all permutations of leaf kinds in the 4-child array/object shapes", "leaves": "same", "paths": "same"},
 }
 OUTSIDE = ["the JSON text rendering/parsing itself (C json encoder/decoder): checked on the witnesses by the concrete oracle (json.dumps -> json.loads == original)",
-           "integers outside int64 (the statement restricts to int64)", "timestamp/duration/bytes encodings: concrete representatives only (enumeration)"]
+           "integers outside int64 (the statement restricts to int64)", "bytes encodings: concrete representatives only (enumeration; base64 is C code)",
+           "timestamps with a sub-second part and display offsets that are not whole minutes"]
 ASSUMPTIONS = ["a JSON document is what json.loads returns: dict with str keys, list, str, int, float, True/False, None"]
 TRUSTED = ["z3 5.1", "CPython 3.12 json module on concrete values", "vf.sym shadows (bool cannot be shadowed: booleans are enumerated)"]
 MANIFEST = {
@@ -63,12 +68,14 @@ def shapes(tier):
 
 
 def tasks(tier):
-    return [{"tier": tier, "i": i} for i in range(len(shapes(tier)))] + [{"what": "default"}]
+    return [{"tier": tier, "i": i} for i in range(len(shapes(tier)))] + [{"what": "default"}, {"what": "timestamp-text"}, {"what": "duration-text"}]
 
 
 def run_task(task, kf):
     if task.get("what") == "default":
         return [explore.explore(_default_harness(), kf, profile_root=L.SRC)]
+    if task.get("what") in ("timestamp-text", "duration-text"):
+        return [explore.explore(_time_text_harness(task["what"]), kf, profile_root=L.SRC)]
     return [explore.explore(_harness(shapes(task["tier"])[task["i"]], task["i"]), kf, profile_root=L.SRC)]
 
 
@@ -274,6 +281,74 @@ def _default_harness():
     def run(vals):
         return [Ob("C15/default/enumerated", z3.BoolVal(True), note="timestamp/duration/bytes encodings are checked by the concrete oracle on representatives")]
     return Harness(id="C15/default", vars={"dummy": z3.Int("dummy")}, pre=[z3.Int("dummy") == 0], run=run, witness=lambda v: None, max_paths=2)
+
+
+def _time_text_harness(what):
+    """CELJSONEncoder.default on a symbolic whole-second timestamp (any instant 0001..9999, any display offset in whole minutes
+    within +-14:00) / a symbolic whole-second duration: the text is the RFC 3339 rendering of that instant (at the value's own
+    offset or in UTC) / the decimal seconds followed by `s`"""
+    import importlib
+    from ..sym import times as T
+    from . import c11
+    celpy, ct, ev = common.mods()
+    adapter = importlib.import_module("celpy.adapter")
+    US = T.US
+    if what == "timestamp-text":
+        ES, O = z3.Int("es"), z3.Int("o")
+        E = ES * US
+        pre = [E >= T.MIN_L, E <= T.MAX_L, O >= -840, O <= 840, E + O * 60 * US >= T.MIN_L, E + O * 60 * US <= T.MAX_L]
+
+        def rendering(local, off_min):
+            f = c11.spec_fields(local)
+            dig = lambda t, w: [(t / 10 ** (w - 1 - k)) % 10 + 48 for k in range(w)]  # noqa: E731
+            body = dig(f["getFullYear"], 4) + [45] + dig(f["getMonth"] + 1, 2) + [45] + dig(f["getDate"], 2) + [84] + dig(f["getHours"], 2) + [58] + \
+                dig(f["getMinutes"], 2) + [58] + dig(f["getSeconds"], 2)
+            if off_min is None:
+                return body + [90]
+            a = z3.If(off_min < 0, -off_min, off_min)
+            return body + [z3.If(off_min < 0, 45, 43)] + dig(a / 60, 2) + [58] + dig(a % 60, 2)
+
+        def run(vals):
+            t = ct.TimestampType(T.make_datetime(mk(SInt, E, vals["es"] * US), mk(SInt, O, vals["o"])))
+            try:
+                text = adapter.CELJSONEncoder().default(t)
+            except Exception as ex:  # noqa: BLE001
+                return [Ob("C15/timestamp/encodes", z3.BoolVal(False), note=f"{type(ex).__name__}: {ex}"[:120])]
+            if not isinstance(text, str):
+                return [Ob("C15/timestamp/encodes-as-text", z3.BoolVal(False), note=repr(text)[:80])]
+            got = cterms(text)
+            alts = []
+            for want in (rendering(E, None), rendering(E + O * 60 * US, O)):
+                if len(want) == len(got):
+                    alts.append(z3.And([g == w for g, w in zip(got, want)]))
+            # the own-offset rendering with a zero offset is `Z`-less "+00:00": also RFC 3339 for the same instant
+            return [Ob("C15/timestamp/rfc3339-same-instant", z3.Or(alts) if alts else z3.BoolVal(False), note=f"text of length {len(got)}")]
+
+        return Harness(id="C15/timestamp-text", vars={"es": ES, "o": O}, pre=pre, run=run,
+                       witness=lambda vals: {"check": "c15.time_text", "args": enc({"what": what, "vals": vals})}, max_paths=60, timeout_ms=60000)
+    DS = z3.Int("ds")
+    pre = [DS >= -315576000000, DS <= 315576000000]
+
+    def run(vals):
+        d = ct.DurationType(T.make_timedelta(mk(SInt, DS * US, vals["ds"] * US)))
+        try:
+            text = adapter.CELJSONEncoder().default(d)
+        except Exception as ex:  # noqa: BLE001
+            return [Ob("C15/duration/encodes", z3.BoolVal(False), note=f"{type(ex).__name__}: {ex}"[:120])]
+        got = cterms(text) if isinstance(text, str) else []
+        if len(got) < 2:
+            return [Ob("C15/duration/encodes-as-text", z3.BoolVal(False), note=repr(text)[:80])]
+        neg = got[0] == 45
+        body = got[1:-1] if str.__str__(text).startswith("-") else got[:-1]
+        val = z3.IntVal(0)
+        for c in body:
+            val = val * 10 + (c - 48)
+        digits_ok = z3.And([z3.And(c >= 48, c <= 57) for c in body]) if body else z3.BoolVal(False)
+        signed = -val if str.__str__(text).startswith("-") else val
+        return [Ob("C15/duration/seconds-text", z3.And(got[-1] == 115, digits_ok, signed == DS, z3.Implies(len(body) > 1, body[0] != 48) if body else z3.BoolVal(False)))]
+
+    return Harness(id="C15/duration-text", vars={"ds": DS}, pre=pre, run=run,
+                   witness=lambda vals: {"check": "c15.time_text", "args": enc({"what": what, "vals": vals})}, max_paths=60)
 
 
 def extra_validation():
